@@ -261,13 +261,25 @@ func c03Project(o slip.Object) h.V {
 		}
 		return h.V{"k": "hash", "v": items}
 	case *slip.Array:
+		// the elements as aref reaches them (every index tuple, the last index varying fastest), not the storage
 		items := []any{}
-		for _, e := range t.Elements() {
-			items = append(items, c03Project(e))
-		}
 		dims := t.Dimensions()
 		if dims == nil {
 			dims = []int{}
+		}
+		total := 1
+		for _, d := range dims {
+			total *= d
+		}
+		idx := make([]int, len(dims))
+		for n := 0; n < total; n++ {
+			items = append(items, c03Project(t.Get(idx...)))
+			for k := len(idx) - 1; k >= 0; k-- {
+				if idx[k]++; idx[k] < dims[k] {
+					break
+				}
+				idx[k] = 0
+			}
 		}
 		return h.V{"k": "array", "dims": dims, "v": items}
 	}
